@@ -299,10 +299,15 @@ class Analysis:
                     e0 = env.get(op.place.local)
                     if e0 is not None and e0[0] == "ovf" and e0[1] is not None and e0[1][0] == "sumres":
                         val = e0[1]
+                if val is None and op.place is not None and len(op.place.proj) == 3:
+                    pj = op.place.proj
+                    e3 = env.get(op.place.local)
+                    if e3 is not None and e3[0] == "enumopt" and isinstance(pj[0], dict) and pj[0].get("v") == 1 and all(isinstance(x_, dict) and x_.get("f") == 0 for x_ in pj[1:]):
+                        val = ("enumidx", e3[1])             # the index `enumerate()` yields with an element of s: below len(s)
                 if val is None and op.place is not None:
                     pl = op.place
                     e = env.get(pl.local) if pl.is_local() else None
-                    if e is not None and e[0] in ("cmp", "bool", "range", "alias", "ovf", "optlin", "getopt"):
+                    if e is not None and e[0] in ("cmp", "bool", "range", "alias", "ovf", "optlin", "getopt", "iterof", "enumof", "enumopt", "refenum"):
                         val = e
                     elif pl.is_local() and (pl.local in self.len_of_local):
                         val = ("alias", pl)
@@ -315,7 +320,12 @@ class Analysis:
             elif rv.place is not None:
                 val = ("alias", rv.place) if self.base_local(rv.place, env) is not None else None
         elif k in ("ref", "rawptr"):
-            if rv.j.get("bk") != "mut" and self.base_local(rv.place, env) is not None:
+            pe_ = env.get(rv.place.local) if rv.place is not None else None
+            if pe_ is not None and pe_[0] == "enumof" and not rv.place.proj:
+                val = ("refenum", rv.place.local)            # `&mut iter` of `iter = s.iter().enumerate()`
+            elif pe_ is not None and pe_[0] == "refenum" and rv.place.proj == ["*"]:
+                val = pe_                                     # reborrow
+            elif rv.j.get("bk") != "mut" and self.base_local(rv.place, env) is not None:
                 val = ("alias", rv.place)
             elif rv.place is not None and self.base_local(rv.place, env) is not None:
                 # &mut of a tracked sequence: its length may change through the reference
@@ -397,6 +407,12 @@ class Analysis:
             d.add(v, val[1], 0)          # the sum is within the slice's length
             d.add(val[2], v, 0)          # and not below its first summand
             return
+        if x in self.var_of_local and val is not None and val[0] == "enumidx":
+            v = self.var_of_local[x]
+            self._reset_var(d, v)
+            d.add(v, val[1], -1)         # index < len(s)
+            d.add(0, v, 0)
+            return
         if x in self.var_of_local:
             v = self.var_of_local[x]
             if val is not None and val[0] == "lin":
@@ -455,6 +471,24 @@ class Analysis:
             f_ = self.lin_of_operand(t.args[1], env)
             if bl is not None and f_ is not None:
                 dest_val = ("getopt", self.len_of_local[bl], f_)
+        # `for (i, x) in s.iter().enumerate()`: the index handed out with an element is below len(s) (s cannot change while it
+        # is borrowed by the iterator; any tracked change of its length drops these facts)
+        if name == "iter" and len(t.args) == 1 and ("slice" in callee or "Vec" in callee):
+            bl = self.base_local(t.args[0], env)
+            if bl is not None:
+                dest_val = ("iterof", self.len_of_local[bl])
+        if name in ("enumerate", "into_iter", "by_ref") and len(t.args) == 1 and t.args[0].place is not None and t.args[0].place.is_local():
+            e_ = env.get(t.args[0].place.local)
+            if e_ is not None and e_[0] == "iterof" and name == "enumerate" and "slice::Iter" in inst:
+                dest_val = ("enumof", e_[1])
+            elif e_ is not None and e_[0] == "enumof" and name == "into_iter" and "Enumerate" in inst:
+                dest_val = e_
+        if name == "next" and len(t.args) == 1 and t.args[0].place is not None and t.args[0].place.is_local() and "Enumerate<std::slice::Iter" in inst:
+            e_ = env.get(t.args[0].place.local)
+            if e_ is not None and e_[0] == "refenum":
+                e2_ = env.get(e_[1])
+                if e2_ is not None and e2_[0] == "enumof":
+                    dest_val = ("enumopt", e2_[1])
         if name == "branch" and "Try" in callee and t.args and t.args[0].place is not None and t.args[0].place.is_local():
             e_ = env.get(t.args[0].place.local)
             if e_ is not None and e_[0] == "optlin":
@@ -821,6 +855,10 @@ def _mentions(e, vs, local):
         return e[1][1] in vs
     if k == "getopt":
         return e[1] in vs or e[2][1] in vs
+    if k in ("iterof", "enumof", "enumopt", "enumidx"):
+        return e[1] in vs
+    if k == "refenum":
+        return local is not None and e[1] == local
     if k == "sumle":
         return e[1] in vs or e[2] in vs or e[3] in vs
     if k == "ovfflag":
